@@ -64,6 +64,16 @@ var serveWitnesses = []aWitness{
 		`<message from="`+peerFull+`"><data xmlns="http://jabber.org/protocol/ibb" seq="1" sid="s1">!!!!</data></message>`,
 		`<iq type="set" id="c1" from="`+peerFull+`" to="`+localAddr+`"><close xmlns="http://jabber.org/protocol/ibb" sid="s1"/></iq>`,
 		`<iq type="set" id="d3" from="`+peerFull+`" to="`+localAddr+`"><data xmlns="http://jabber.org/protocol/ibb" seq="1" sid="s1">aGVsbG8=</data></iq>`)}},
+	{"ibb-data-for-stream-nobody-reads", acase{connModes: []string{"closenow"}, steps: rawSteps(openS1,
+		`<iq type="set" id="d1" from="`+peerFull+`" to="`+localAddr+`"><data xmlns="http://jabber.org/protocol/ibb" seq="0" sid="s1">aGVsbG8=</data></iq>`,
+		`<iq type="set" id="d2" from="`+peerFull+`" to="`+localAddr+`"><data xmlns="http://jabber.org/protocol/ibb" seq="1" sid="s1">aGVsbG8=</data></iq>`,
+		`<message from="`+peerFull+`"><data xmlns="http://jabber.org/protocol/ibb" seq="2" sid="s1">aGVsbG8=</data></message>`,
+		`<iq type="get" id="p1"><ping xmlns="urn:xmpp:ping"/></iq>`)}},
+	{"muc-presence-after-failed-join", acase{join: true, steps: []step{
+		{kind: "reply", name: "witness", which: 0, waitReq: true, forms: map[string]string{"presence": `<presence type="error" id="$ID" from="` + roomMe + `">` + errCancel + `</presence>`}},
+		{kind: "raw", name: "witness", input: canonSelf},
+		{kind: "raw", name: "witness", input: `<iq type="get" id="p1"><ping xmlns="urn:xmpp:ping"/></iq>`},
+	}}},
 	{"deep-nesting", acase{steps: rawSteps(`<iq type="get" id="deep">`+strings.Repeat(`<a>`, 5000)+strings.Repeat(`</a>`, 5000)+`</iq>`, `<message>`+strings.Repeat(`<x xmlns="jabber:x:data">`, 2000)+strings.Repeat(`</x>`, 2000)+`</message>`)}},
 	{"empty-and-odd-stanzas", acase{hist: true, join: true, rcpt: true, open: true, steps: rawSteps(`<iq/>`, `<message/>`, `<presence/>`, `<iq type="result"/>`, `<iq type="result" id="hq1"/>`, `<presence type="error" id="mj1"/>`, `<message type="error" id="r1"/>`, `<iq type="error" id="ib1"/>`)}},
 }
